@@ -12,7 +12,7 @@ import (
 )
 
 func init() {
-	register("C06", "Structural clauses of the sender's side of the wire protocol, decided on all paths of the walk callback, queue, sendFile and fileSender.Write: the id counter starts at 0, has one increment by one outside any loop on every path that sends a STAT, independent of the requestable test, and the id registered for a file is the pre-increment value; only modes passing fileCanRequestData (mask = io/fs.ModeType, the same function the receiver uses) are registered; a request looks the id up, fails on a miss and deletes it in one lock region before enqueueing; every success return of sendFile is the single empty DATA terminator for the handle's id, chunks carry that id and the written bytes, and nothing reachable from sendFile starts a goroutine; each callback sends exactly its STAT, and one end marker follows only a successful walk; progress has one final call. Does not decide ascending order of the STAT stream (delegated to FS.Walk) nor payload bytes (io.CopyBuffer contract).", runC06)
+	register("C06", "Structural clauses of the sender's side of the wire protocol, decided on all paths of the walk callback, queue, sendFile and fileSender.Write: the id counter starts at 0, has one increment by one outside any loop on every path that sends a STAT, independent of the requestable test, and the id registered for a file is the pre-increment value; only modes passing fileCanRequestData (mask = io/fs.ModeType, the same function the receiver uses) are registered; a request looks the id up, fails on a miss and deletes it in one lock region before enqueueing; every success return of sendFile is the single empty DATA terminator for the handle's id, chunks carry that id and the written bytes, and nothing reachable from sendFile starts a goroutine; each callback sends exactly its STAT, and one end marker follows only a successful walk; progress has one final call. the file's bytes are moved by io.Copy/io.CopyBuffer into the chunk writer or by a read loop that writes the n bytes of every Read, the one that reports io.EOF included. Does not decide ascending order of the STAT stream (delegated to FS.Walk) nor the payload bytes beyond that (io.CopyBuffer contract).", runC06)
 }
 
 func runC06(c *Ctx) {
@@ -25,6 +25,7 @@ func runC06(c *Ctx) {
 	r04_4send(c, "R06.7")
 	r06_8(c, "R06.8")
 	r06_9(c, "R06.9")
+	r06_10(c, "R06.10")
 }
 
 // walkCallback returns the FS.Walk callback literal of sender.walk.
@@ -565,4 +566,139 @@ func r06_8(c *Ctx, rule string) {
 		_, lastParam := eng.Strip(a[1]).(*ssa.Parameter)
 		c.R.Check(isFieldLoad(a[0], "fsutil.sender.progressCurrent") && lastParam, rule, c.siteName(call)+"/args", c.pos(call), "reports (running total, last)", "the progress callback does not receive (running total, last)")
 	}
+}
+
+// R06.10: the bytes of a requested file reach the stream.
+//
+// sendFile hands the opened file to io.CopyBuffer, whose loop honours the
+// io.Reader contract (a Read may return its last bytes together with io.EOF).
+// A hand-written loop is accepted when it does too: with n > 0, no path from
+// the Read leads to the terminator, to a success return or back to the Read
+// without a write of buf[:n].
+func r06_10(c *Ctx, rule string) {
+	c.R.Rule(rule, "sendFile moves the file's bytes with io.Copy/io.CopyBuffer into a fileSender, or with a read loop that writes the n bytes of every Read (also of the one that reports io.EOF) before it sends the terminator, succeeds or reads again")
+	sf := c.Fn(rule, "fsutil.(*sender).sendFile")
+	if sf == nil {
+		return
+	}
+	n := 0
+	var reads []*ssa.Call
+	eng.Instrs(sf, func(in ssa.Instruction) {
+		call, ok := in.(*ssa.Call)
+		if !ok {
+			return
+		}
+		name := c.P.CalleeName(call)
+		switch {
+		case name == "io.Copy" || name == "io.CopyBuffer" || name == "io.CopyN":
+			dst := call.Call.Args[0]
+			isSender := c.DerivesFrom(dst, func(v ssa.Value) bool {
+				al, isA := v.(*ssa.Alloc)
+				return isA && strings.HasSuffix(eng.TypeStr(al.Type()), "fsutil.fileSender")
+			}, 4)
+			if isSender {
+				n++
+				c.R.OK(rule, c.siteName(call)+"/library-copy", c.pos(call), "the content is copied by "+name+" into a fileSender")
+				c.ObErrChecked(rule+"/checked", call)
+			}
+		case strings.HasSuffix(name, ").Read") && call.Call.Signature().Results().Len() == 2:
+			reads = append(reads, call)
+		}
+	})
+	for _, rd := range reads {
+		n++
+		con := c.siteName(rd)
+		// the byte count of this Read
+		var cnt ssa.Value
+		for _, r := range eng.Referrers(rd) {
+			if e, ok := r.(*ssa.Extract); ok && e.Index == 0 {
+				cnt = e
+			}
+		}
+		if cnt == nil {
+			c.R.Fail(rule, con+"/count-used", c.pos(rd), "the byte count of a direct Read is discarded")
+			continue
+		}
+		x := c.explorer(sf)
+		as := map[string]bool{}
+		eng.Instrs(sf, func(in ssa.Instruction) {
+			bo, ok := in.(*ssa.BinOp)
+			if !ok {
+				return
+			}
+			cmp := func(a int64, k int64) (bool, bool) {
+				switch bo.Op {
+				case token.GTR:
+					return a > k, true
+				case token.GEQ:
+					return a >= k, true
+				case token.LSS:
+					return a < k, true
+				case token.LEQ:
+					return a <= k, true
+				case token.EQL:
+					return a == k, true
+				case token.NEQ:
+					return a != k, true
+				}
+				return false, false
+			}
+			if !eng.SameValue(bo.X, cnt) {
+				return
+			}
+			if k, isK := eng.ConstInt(bo.Y); isK {
+				lo, ok1 := cmp(1, k)
+				hi, ok2 := cmp(1<<20, k)
+				if ok1 && ok2 && lo == hi {
+					as[x.KeyAtEntry(bo)] = lo // the truth for every n > 0
+				}
+			}
+		})
+		isWrite := func(in ssa.Instruction) bool {
+			call, ok := in.(ssa.CallInstruction)
+			if !ok {
+				return false
+			}
+			nm := c.P.CalleeName(call)
+			if !strings.HasSuffix(nm, ").Write") && !strings.HasSuffix(nm, ").SendMsg") {
+				return false
+			}
+			for _, a := range call.Common().Args {
+				if c.DerivesFrom(a, func(v ssa.Value) bool {
+					sl, isS := v.(*ssa.Slice)
+					return isS && sl.High != nil && eng.SameValue(sl.High, cnt)
+				}, 5) {
+					return true
+				}
+			}
+			return false
+		}
+		ex := c.explorer(sf)
+		ex.From = rd
+		ex.Assume = as
+		ex.Barrier = func(in ssa.Instruction, st *eng.State) bool { return isWrite(in) }
+		ex.Target = func(in ssa.Instruction, st *eng.State) bool {
+			if in == ssa.Instruction(rd) || ex.IsSuccessReturn(in, st) {
+				return true
+			}
+			if call, ok := in.(*ssa.Call); ok && c.sendsPacket(call, "PACKET_DATA") {
+				pl, _ := c.packetOf(call)
+				if _, hasData := pl.Fields["Data"]; !hasData {
+					return true
+				}
+			}
+			return false
+		}
+		ex.StopAtTarget = true
+		hits := ex.Run()
+		switch {
+		case ex.Exhausted:
+			c.R.Undecided(rule, con+"/bytes-written", c.pos(rd), "state limit")
+		case len(hits) > 0:
+			c.R.Fail(rule, con+"/bytes-written", c.pos(hits[0].Instr), "the n bytes a Read returned can be dropped (a Read may return data together with io.EOF): the terminator, a success return or the next Read is reached without a write of buf[:n]; path "+eng.BlockTrace(sf, hits[0].Trace))
+		default:
+			c.R.OK(rule, con+"/bytes-written", c.pos(rd), "every Read's bytes are written before the loop moves on")
+		}
+	}
+	c.R.Floor(rule, "content copy sites in sendFile", n, 1)
 }
